@@ -394,4 +394,33 @@ def R4_estimate(run):
     run.check("R4", "formula-b", ok, "est_liquidity_for_token_b is not (amount << 64) / (upper - lower): %s" % [sh(r, 120) for r in rb], loc=fb.loc(), detail="floor((amount << 64) / (upper - lower))")
 
 
-RULES = [R1_case_split, R1b_convert, R2_handler_polarity, R3_caller_limits, R4_estimate]
+def R5_wide_product(run):
+    run.title("R5", "U256Muldiv::mul (the 192/256-bit products behind the token-A amount and the liquidity estimate): every word of the product that lies inside the "
+                    "result is written - each update_word(index, ..) is guarded by exactly `index < NUM_WORDS` on that same index (a tighter guard drops a carry word)")
+    facts = run.facts
+    fn = facts.need_fn("math::u256_math::U256Muldiv::mul")
+    run.touch(fn)
+    nw = facts.const_value("math::u256_math::NUM_WORDS")
+    run.check("R5", "num-words", nw == 4, "NUM_WORDS = %s, expected 4 (4 x 64 bits)" % nw, detail="4")
+    ups = calls_to(fn, ends("U256Muldiv::update_word"), ctx={}, cut=True)
+    ats = A.atoms(fn, {}, cut=True)
+    n = 0
+    for (bi, t, args) in ups:
+        n += 1
+        idx = strip(args[1])
+        guards = []
+        for at in ats:
+            c = at.cond()
+            if not c or not at.true_targets or not at.false_targets:
+                continue
+            tr = cfg.reach(fn, at.true_targets[0], cut_blocks=[at.block])
+            fr = cfg.reach(fn, at.false_targets[0], cut_blocks=[at.block])
+            if (bi in tr) != (bi in fr) and c[0] in ("Lt", "Le", "Gt", "Ge", "Eq", "Ne"):
+                guards.append((at, bi in tr))
+        exact = [1 for (at, side) in guards if side and at.cond()[0] == "Lt" and strip(at.cond()[1]) == idx and const_val(at.cond()[2]) == nw]
+        run.check("R5", "word-guard#%d" % n, len(exact) == 1 and len(guards) == 1, "update_word(%s, ..) in U256Muldiv::mul is guarded by %s; expected exactly `%s < NUM_WORDS`" % (
+            sh(idx, 50), [g[0].describe()[:60] for g in guards], sh(idx, 50)), loc=fn.loc(t["l"]), detail="index < NUM_WORDS")
+    run.floor("R5", "word writes in mul", n, 2)
+
+
+RULES = [R1_case_split, R1b_convert, R2_handler_polarity, R3_caller_limits, R4_estimate, R5_wide_product]
